@@ -171,6 +171,7 @@ pub struct Stats {
     pub world_dims: BTreeMap<String, u64>,
     pub samples: Vec<Value>,
     pub nb_ok: BTreeMap<u64, bool>,
+    pub digests: Vec<String>,
 }
 
 impl Stats {
@@ -188,6 +189,7 @@ impl Stats {
             "nontrivial_pairs": self.nontrivial_pairs.iter().collect::<Vec<_>>(),
             "world_dims": self.world_dims,
             "samples": self.samples,
+            "digests": self.digests,
         })
     }
 }
@@ -281,6 +283,8 @@ pub fn check_case(env: &Env, case: &Case, idx: u64, st: &mut Stats) -> Vec<Viola
         return out;
     }
     let mut compared_worlds = 0;
+    let hash_opt = |b: Option<Vec<u8>>| b.map(|b| fnv64(&b)).unwrap_or(0);
+    let mut digest = format!("{idx}|{:016x}|{}|ref:{}:{:016x}:{:016x}:{:016x}", fnv64(&case.grammar.bytes), case.spec.label(), reference.class.tag(), reference.trace_hash(), hash_opt(reference.file(&format!("{}.rs", case.grammar.stem))), hash_opt(reference.file(&format!("{}_actions.rs", case.grammar.stem))));
     for w in &case.worlds[1..] {
         // Directory neighbours must compile alone under this spec, otherwise
         // process_dir stopping at their error would be blamed on the target.
@@ -326,6 +330,9 @@ pub fn check_case(env: &Env, case: &Case, idx: u64, st: &mut Stats) -> Vec<Viola
             st.canaries.insert(o.canary);
         }
         st.traces.insert(o.trace_hash());
+        if crate::report::digest_on() {
+            digest.push_str(&format!("|w:{}:{:016x}:{:016x}:{:016x}:{:016x}:{}", o.class.tag(), o.trace_hash(), hash_opt(o.file(&format!("{}.rs", case.grammar.stem))), hash_opt(o.file(&format!("{}_actions.rs", case.grammar.stem))), o.canary, o.stat.events));
+        }
         for (dim, on) in [
             ("tty", w.tty), ("env_defaults", w.env_defaults), ("cwd_other", w.cwd != 0), ("rel_path", w.rel_path),
             ("stale", w.stale != 0), ("neighbours", !w.neighbours.is_empty()), ("trace_env", w.env.iter().any(|e| e.0 == "RUSTEMO_TRACE")),
@@ -356,6 +363,9 @@ pub fn check_case(env: &Env, case: &Case, idx: u64, st: &mut Stats) -> Vec<Viola
                 index: idx,
             });
         }
+    }
+    if crate::report::digest_on() {
+        st.digests.push(digest);
     }
     if compared_worlds >= 1 && reference.class.tag() == "ok" {
         st.nontrivial_pairs.insert(pair_hash);
@@ -497,7 +507,8 @@ pub fn work(env: &Env, ctx: &Ctx, w: usize, nw: usize, plan: &[(u64, u64, usize,
             idx += nw as u64;
         }
     }
-    json!({"stats": st.to_json(), "violations": viol})
+    let digests = std::mem::take(&mut st.digests);
+    json!({"stats": st.to_json(), "violations": viol, "digests": digests})
 }
 
 pub fn neighbours_ctx(repo: &std::path::Path, verif: &std::path::Path, seed: u64) -> Ctx {
